@@ -151,6 +151,14 @@ def run_keys(shard, mon, S, only_keys=None):
                     mon.viol("non_primary_precedes_primary", w, want, got)
                 if prim and len(prim) < len(got):
                     mon.tally("mixed_primary_keys")
+            if hash((cc, code)) % 5 == 0:
+                tam = observe(S.BIC.candidates_from_bank_code, cc, code)
+                if tam.ok and isinstance(tam.value, list):
+                    tam.value.append("TAMPERED")
+                    tam.value.reverse()
+                again = observe(S.BIC.candidates_from_bank_code, cc, code)
+                if not again.ok or sorted(str(x) for x in again.value) != sorted(want):
+                    mon.viol("editing_a_returned_list_changes_later_answers:candidates", w, want, again.brief())
             for cand in oc.value:
                 oc2 = observe(lambda c=cand: (c.domestic_bank_codes, c.exists))
                 if not oc2.ok or code not in oc2.value[0] or oc2.value[1] is not True:
@@ -244,6 +252,15 @@ def run_bics(shard, mon, S):
             continue
         if og.value[0] != want_codes or og.value[1] != want_names or og.value[2] != want_short or og.value[3] is not True:
             mon.viol("bic_reverse_lookup_wrong", {"bic": bic}, [want_codes, want_names, want_short, True], list(og.value))
+        elif hash(bic) % 4 == 0:
+            # the caller edits the lists it was given; a fresh object of the same BIC must still answer from the registry
+            for lst in og.value[:3]:
+                if isinstance(lst, list):
+                    lst.clear()
+                    lst.append("TAMPERED")
+            og2 = observe(lambda: (lambda x: (x.domestic_bank_codes, x.bank_names, x.bank_short_names))(S.BIC(bic, allow_invalid=True)))
+            if not og2.ok or list(og2.value) != [want_codes, want_names, want_short]:
+                mon.viol("editing_a_returned_list_changes_later_answers:bic_lookup", {"bic": bic}, [want_codes, want_names, want_short], og2.brief())
         mon.tally("bics")
     from vf.props.c04 import rand_bic  # noqa: PLC0415
 
